@@ -237,6 +237,24 @@ def check(repo: Repo, run: Run) -> None:
     nb = [b for b in branches if b["kind"] == "not"][0]
     rets = [ast.unparse(r).replace("'", '"') for r in nb["returns"]]
     run.ob("C18.B1", "logical_connector[not]|wrap", bool(rets) and all(r == 'f"! ({details})"' for r in rets), f"`not` emits {rets}; needs `! ( ... )` around all of its clauses", mod.loc(nb["node"]))
+    # B6: the translation is a function of the filter tree -- no rewriter writes into the filter it is given -----
+    # (a rewriter that edits its clause in place gives a second translation of the same clause object -- a YAML
+    # anchor used twice, a policy translated again -- a different text: [u, u] becomes `! A && A`)
+    from ..core.argwrites import writes_to_arguments
+
+    nfn = 0
+    for q, fn in mod.functions():
+        nfn += 1
+        ws = writes_to_arguments(fn)
+        short = q.split(".")[-1]
+        if ws:
+            for r, node, what in ws[:3]:
+                run.ob("C18.B6", f"{short}|writes {r}", False,
+                       f"{q}: {what}; the filter tree belongs to the caller: translating the same clause object again (or a tree that references it twice) yields a different expression, so the emitted CEL no longer denotes the tree's and/or/not structure",
+                       mod.loc(node))
+        else:
+            run.ob("C18.B6", f"{short}|read-only", True, f"{q} only reads the objects it is given", mod.loc(fn))
+    run.floor("C18.B6", nfn, 30)
     # B5 -----------------------------------------------------------------
     for b in branches:
         bad = [c for c in b["calls"] if c != "level + 1"]
